@@ -1063,7 +1063,8 @@ def m_limit( ctx ):
     # limit ) cell.  An explicit positive limit is honoured in every bank; without one ( None, 0 ) the per-bank default applies - 1968 for
     # the Coil / Status banks, 123 for the register banks - deduced from the address being split; whatever is passed, the limit that
     # reaches the loop is positive ( `min( count, limit )` of a negative limit never consumes the count: the generator does not end )
-    from .fold import run_block
+    from .fold import run_block, helper_calls
+    helpers = helper_calls( src.tree, ignore_calls=( 'log', ))
     addr = sh.args.args[0].arg
     LIM = 'limit' if 'limit' in [ a_.arg for a_ in sh.args.args ] else None
     loops = [ w for w in sh.body if isinstance( w, ( ast.While, ast.For )) ]
@@ -1076,10 +1077,13 @@ def m_limit( ctx ):
     cells = 0
     for a0 in BITS + REGS:
         for lim in ( None, 0, 1, 5, 123, 1968, 5000, -1 ):
-            env = { addr: a0, sh.args.args[1].arg: 10, LIM: lim }
+            env = dict( helpers ); env.update( { addr: a0, sh.args.args[1].arg: 10, LIM: lim } )
             try:
                 out = run_block( head, env, ignore_calls=( 'log', ))
             except NoFold as exc:
+                if res.findings:
+                    res.note( 'shatter: effective limit not decided ( %s )' % exc )
+                    return res
                 raise AnalysisError( 'shatter: the statements ahead of the loop are not a decision fragment: %s' % exc )
             cells += 1
             got = env.get( LIM )
